@@ -375,7 +375,9 @@ func searchC06() {
 		if Y.leap != 0 && Y.getMonth[-Y.leap] != nil {
 			starts[2] = -Y.leap
 		}
-		if tier != "thorough" && !c06Reform(y) && y > 30 && rng.Intn(2) == 0 {
+		if tier == "thorough" {
+			starts = []int{starts[0], starts[2]} // every year is visited: two starts per year keep a shard inside its budget
+		} else if y > 30 && rng.Intn(2) == 0 {
 			starts = starts[1:]
 		}
 		for si, sm := range starts {
